@@ -52,7 +52,7 @@ func (rw *rwalker) expr(e ast.Expr) []*rev {
 		if ix, ok := stripParens(x.X).(*ast.IndexExpr); ok {
 			if t := rw.typeOf(ix.X); t.ok() && rw.w.isMap(t) {
 				if et := rw.w.elemType(t); et.ok() {
-					if _, ptr := et.e.(*ast.StarExpr); ptr {
+					if _, ptr := et.e.(*ast.StarExpr); ptr && !rw.nonNil[compact(x.X)] {
 						evs = append(evs, riskEv("Deref", compact(x.X), nil, nil))
 					}
 				}
@@ -344,9 +344,25 @@ func (rw *rwalker) sliceArgName(a ast.Expr, evs *[]*rev) string {
 
 func (rw *rwalker) block(list []ast.Stmt) []*rev {
 	var evs []*rev
+	saved := rw.nonNil
+	rw.nonNil = map[string]bool{}
+	for k := range saved {
+		rw.nonNil[k] = true
+	}
 	for _, s := range list {
 		evs = append(evs, rw.stmt(s)...)
+		// m[k] = &T{...}: the entry is non-nil for the rest of the block
+		if as, ok := s.(*ast.AssignStmt); ok && len(as.Lhs) == 1 && len(as.Rhs) == 1 {
+			if ix, ok := stripParens(as.Lhs[0]).(*ast.IndexExpr); ok {
+				if u, ok := stripParens(as.Rhs[0]).(*ast.UnaryExpr); ok && u.Op == token.AND {
+					if _, ok := u.X.(*ast.CompositeLit); ok {
+						rw.nonNil[compact(ix)] = true
+					}
+				}
+			}
+		}
 	}
+	rw.nonNil = saved
 	return evs
 }
 
@@ -570,7 +586,7 @@ func (rw *rwalker) assign(s *ast.AssignStmt) []*rev {
 		if ok1 && ok2 && k != "" {
 			return append(evs, &rev{k: "SetLen", x: name, t1: tBin(k, a, b)})
 		}
-		return append(evs, &rev{k: "Havoc", x: name, y: rw.oracle(name + compact(s))})
+		return append(evs, &rev{k: "Havoc", x: name, y: rw.oracle(name + ":" + compact(s))})
 	}
 	if len(s.Lhs) == len(s.Rhs) {
 		// x = x[k:]
@@ -601,6 +617,9 @@ func (rw *rwalker) assign(s *ast.AssignStmt) []*rev {
 						}
 					}
 				}
+			}
+			if _, isLit := stripParens(s.Rhs[i]).(*ast.FuncLit); isLit {
+				continue
 			}
 			evs = append(evs, rw.expr(s.Rhs[i])...)
 		}
@@ -936,9 +955,32 @@ func (rw *rwalker) forStmt(x *ast.ForStmt) []*rev {
 		body = append(body, cev...)
 		body = append(body, &rev{k: "If", c: cNot(c), a: []*rev{{k: "Break", x: "cond"}}})
 	}
-	body = append(body, rw.block(x.Body.List)...)
+	inner := rw.block(x.Body.List)
+	body = append(body, inner...)
 	body = append(body, rw.stmt(x.Post)...)
-	return append(evs, &rev{k: "LoopWhile", c: c, a: body, loopID: id})
+	evs = append(evs, &rev{k: "LoopWhile", c: c, a: body, loopID: id})
+	if x.Cond != nil && !hasLoopExit(inner) {
+		// the loop is only left when its condition is false (re-evaluated after the havocs
+		// the instrumentation inserts right after the loop)
+		evs = append(evs, &rev{k: "Assume", c: cNot(c), loopID: id})
+	}
+	return evs
+}
+
+// does the body leave the loop other than through its condition (break; returns end the function)
+func hasLoopExit(evs []*rev) bool {
+	for _, e := range evs {
+		if e.k == "Break" && e.x == "break" {
+			return true
+		}
+		if e.k == "Unknown" {
+			return true
+		}
+		if e.k == "If" && (hasLoopExit(e.a) || hasLoopExit(e.b)) {
+			return true
+		}
+	}
+	return false
 }
 
 func assignsIdent(b *ast.BlockStmt, name string) bool {
